@@ -202,6 +202,14 @@ def run_point(arg):
             shutil.rmtree(env["OVNI_TMPDIR"], ignore_errors=True)
 
 
+class NoFaultViolation(Exception):
+    """The run without any injected fault already fails the oracle."""
+
+    def __init__(self, key, what, info):
+        Exception.__init__(self, what)
+        self.key, self.what, self.info = key, what, info
+
+
 def enumerate_points(name, script, mode, inline):
     chk, drv = _CTX["chk"], _CTX["drv"]
     wd = os.path.join(chk.scratch, "base-%s-%s" % (name, mode))
@@ -213,11 +221,19 @@ def enumerate_points(name, script, mode, inline):
         if inline:
             e["RTDRV_INLINE"] = "1"
         res, calls = inject.baseline(drv, script, wd, e, wd)
+        if res.sig == 6 and res.rc not in (97, 98):
+            raise NoFaultViolation("no-fault-run:library-abort:%s" % mode, "the library aborted the run of %s/%s in which "
+                                   "nothing was injected: %s" % (name, mode, res.err.strip().split("\n")[-1][:200]), res.brief())
         if res.rc != 0 or "RTDRV-DONE" not in res.out:
             raise core.HarnessError("baseline run of %s/%s failed: %s" % (name, mode, res.err[-300:]))
         v, sig = examine(wd, os.path.join(wd, "log"))
-        if v or ("emu", "ok") not in sig:
-            raise core.HarnessError("uninjected run of %s/%s is not complete and accepted: %s %s" % (name, mode, v, sig))
+        if v:
+            raise NoFaultViolation("no-fault-run:%s:%s" % (v[0], mode), "run of %s/%s without any injected fault: %s"
+                                   % (name, mode, v[1]), {"script": name, "mode": mode, "state": [list(x) for x in sig]})
+        if ("emu", "ok") not in sig:
+            raise NoFaultViolation("no-fault-run:emulator-rejects:%s" % mode, "run of %s/%s without any injected fault is "
+                                   "rejected by ovniemu" % (name, mode), {"script": name, "mode": mode,
+                                                                           "state": [list(x) for x in sig]})
         markers = [os.path.join(wd, "trace")]
         if "OVNI_TMPDIR" in env:
             markers.append(env["OVNI_TMPDIR"])
@@ -246,7 +262,10 @@ def main(argv):
     exhaustive = {}
     for name, script, inline in scripts:
         for mode in modes:
-            pts = enumerate_points(name, script, mode, inline)
+            try:
+                pts = enumerate_points(name, script, mode, inline)
+            except NoFaultViolation as nf:
+                chk.report(nf.key, nf.what, nf.info); continue
             # one point per (syscall, k): the script is deterministic and single-threaded
             seen = set()
             for (sc, k, pid, rest) in pts:
@@ -266,7 +285,10 @@ def main(argv):
     ms = script_multi()
     rng = chk.rng(0, "multi")
     for mode in modes:
-        pts = enumerate_points("multi3", ms, mode, False)
+        try:
+            pts = enumerate_points("multi3", ms, mode, False)
+        except NoFaultViolation as nf:
+            chk.report(nf.key, nf.what, nf.info); continue
         bysc = {}
         for (sc, k, pid, rest) in pts:
             bysc.setdefault(sc, set()).add(k)
